@@ -533,6 +533,18 @@ func TestC03(t *testing.T) {
 		}
 	}
 	for _, f := range regressFiles("C03") {
+		if bytes.Contains(readReplayRaw(f).Case, []byte(`"fg"`)) {
+			var sc SuspCase
+			readReplay(f, &sc)
+			for i := 0; i < 3; i++ {
+				_, v := runSusp(sc, false)
+				ev.Record(sc, true, "suspended-call-crash", "regression-case")
+				if v != nil && !isFsck(v) && ev.Report(v, sc) {
+					t.Fatalf("regression case %s: %v", f, v)
+				}
+			}
+			continue
+		}
 		var rp RecoveryReplay
 		readReplay(f, &rp)
 		if rp.Workload == nil {
